@@ -145,7 +145,7 @@ def page_letter(k: int) -> str:
 RECT_SIZE = (16, 4)  # filled rectangle drawn with its lower-left corner at the page's glyph point (rect=True)
 
 
-def build(nodes, attrs, spell=lambda i, k: 0, contents: bool = True, rect: bool = False, extra=None) -> bytes:
+def build(nodes, attrs, spell=lambda i, k: 0, contents: bool = True, rect: bool = False, extra=None, empty=None) -> bytes:
     """Serialise.  spell(i, key) -> 0 direct value, 1 the value is an indirect object, 2 the parts of the value are
     indirect objects (array elements / the /Font sub-dictionary; Rotate: indirect)."""
     d = Doc()
@@ -197,7 +197,16 @@ def build(nodes, attrs, spell=lambda i, k: 0, contents: bool = True, rect: bool 
         else:
             k = seq.get(i, 25)
             X, Y = page_point(k)
-            if contents:
+            kind = (empty or {}).get(i)
+            if kind == "emptyarray":
+                obj["Contents"] = []
+            elif kind == "nonpainting":
+                # sets state, builds a path and drops it: nothing is painted
+                d.add(Stream({}, b"q 1 0 0 1 5 5 cm 0.5 g 10 10 m 20 20 l n Q"), num=CONTENT_BASE + i)
+                obj["Contents"] = Ref(CONTENT_BASE + i)
+            elif kind == "nocontents":
+                pass
+            elif contents:
                 body = b"BT /F1 8 Tf 1 0 0 1 %d %d Tm (%s) Tj ET" % (X, Y, page_letter(k).encode())
                 if rect:
                     body += b" %d %d %d %d re f" % (X, Y, RECT_SIZE[0], RECT_SIZE[1])
